@@ -7,6 +7,7 @@ Reference for "same bytes as convert": the subject's own `convert` expression,
 obtained through a probe program in a scratch directory (DESIGN.md §3 C14)."""
 import json
 import os
+import re
 
 PROPERTY = "C14"
 LEVEL = "fault_enumeration"
@@ -59,7 +60,7 @@ SRC_NAMES = [("plain", "p.ucg"), ("dotted", "conf.prod.ucg"), ("subdir", "sub/x.
 FAULT_KINDS = ["enospc", "eisdir", "efbig"]
 PROBES = ["failed_conversion_over_existing_artifact", "failed_conversion_without_artifact", "streaming_converter_failed_late",
           "torn_first_byte", "torn_middle", "torn_last_byte", "success_after_failure", "two_outs", "error_after_out",
-          "foreign_preexisting", "built_from_other_cwd", "built_through_directory_walk", "built_through_dotslash", "source_is_symlink"]
+          "foreign_preexisting", "built_from_other_cwd", "built_through_directory_walk", "built_through_dotslash", "source_is_symlink", "companion_built_first", "companion_failed_late"]
 
 TIERS = {
     "quick": {"runs": 640, "wall_cap": 200},
@@ -156,6 +157,12 @@ def generate(rng, tier, idx):
             st["k"] = "pre_error"
             st["outs"] = [{"conv": conv, "cls": cls, "expr": t.replace("@U@", u)}]
             st["u"] = u
+        if w["how"] == "file" and name_cls != "symlink" and not st.get("fault") and rng.chance(20):
+            # another source of the same invocation, built first: its conversion succeeds, fails at once or fails late
+            cconv = rng.choice(CONVERTERS)
+            pool = GOOD[cconv] + BAD[cconv] + [c for c in BAD[cconv] if c[0].startswith("late")] * 3
+            ccls, ct = rng.choice(pool)
+            st["companion"] = {"conv": cconv, "cls": ccls, "expr": ct.replace("@U@", "q" + u)}
         w["steps"].append(st)
     return w
 
@@ -183,6 +190,9 @@ def artifact_path(world, conv):
     base = world["dir"] + "/" + world["src"]
     stem = base[: base.rfind(".")]
     return stem + "." + EXT[conv]
+
+
+_INFO = re.compile(r"^(Build results in no artifacts\.|Skipping .*|TRACE: .*|including an empty file.*)$")
 
 
 class Ref:
@@ -305,19 +315,58 @@ def execute(world, sb, res):
                 elif n == "len":
                     n = ln
                 fsize = int(n)
+        comp = st.get("companion")
+        run_argv = argv
+        comp_art = comp_ref = None
+        q_rel = os.path.join(os.path.dirname(src_rel), "q_companion.ucg")
+        if comp:
+            sb.write(q_rel, PRELUDE + "out %s %s;\n" % (comp["conv"], comp["expr"]))
+            comp_ref = ref.get(comp["conv"], comp["expr"])
+            comp_art = q_rel[:-4] + "." + EXT[comp["conv"]]
+            if sb.exists(comp_art):
+                sb.remove(comp_art)
+            q_arg = os.path.join(os.path.dirname(argv[-1]), "q_companion.ucg")
+            run_argv = argv[:-1] + [q_arg, argv[-1]]
+            res.probe("companion_built_first")
+            if comp_ref is None and comp["cls"].startswith("late"):
+                res.probe("companion_failed_late")
+        elif sb.exists(q_rel):
+            sb.remove(q_rel)
         before = sb.snapshot(world["dir"])
-        inv = sb.invoke(argv, cwd=cwd, fsize=fsize)
+        inv = sb.invoke(run_argv, cwd=cwd, fsize=fsize)
         after = sb.snapshot(world["dir"])
         created, removed, changed = diff(before, after)
-        touched = created + removed + changed
         failed = not inv.ok
+        if comp:
+            # the companion's own outcome: artifact iff convertible; then it is taken out of the picture for the file under test
+            got_q = sb.read(comp_art) if sb.exists(comp_art) and os.path.isfile(sb.p(comp_art)) else None
+            cctx = "companion q_companion.ucg (`out %s %s;`) built before the source in one invocation\n--- exit=%s\n%s" % (
+                comp["conv"], comp["expr"], inv.status, inv.out[-800:])
+            if comp_ref is None and got_q is not None:
+                res.violate("C14.left-behind", "companion · " + comp["conv"], "the companion's failed conversion left %s = %r\n%s" % (comp_art, got_q, cctx))
+            if comp_ref is not None and got_q != comp_ref:
+                res.violate("C14.bytes≠convert", comp["conv"], "companion artifact %s holds %r but convert evaluates to %r\n%s" % (comp_art, got_q, comp_ref, cctx))
+            created = [p for p in created if p != comp_art]
+            changed = [p for p in changed if p != comp_art]
+            # per-file status of the source under test: its segment of the merged stream
+            marker = "Building " + sb.norm(run_argv[-1])
+            cut = inv.out.rfind(marker)
+            if cut < 0:
+                res.violate("C14.not-built", "after-companion", "the source was not built after its companion\n" + cctx)
+                return
+            # informational lines (converters announce what they skip) are not an error block
+            seg = [l for l in inv.out[cut:].split("\n")[1:] if l.strip() and not _INFO.match(l)]
+            failed = len(seg) > 0
+        touched = created + removed + changed
         res.history.append({"step": si, "kind": st["k"], "outs": [[o["conv"], o["cls"]] for o in outs], "fault": fault,
                             "status": inv.status, "signal": inv.signal, "timed_out": inv.timed_out,
                             "created": created, "removed": removed, "changed": changed, "out": inv.out})
         if inv.timed_out:
             res.violate("C14.terminates", st["k"], "step %d: build did not terminate within the hang bound\n%s" % (si, program(st)))
             return
-        ctx = "step %d (%s) of history; source:\n%s--- exit=%s signal=%s\n%s" % (si, st["k"], program(st), inv.status, inv.signal, inv.out[-600:])
+        ctx = "step %d (%s) of history; source:\n%s%s--- exit=%s signal=%s\n%s" % (
+            si, st["k"], program(st), ("(built after q_companion.ucg: `out %s %s;` in the same invocation)\n" % (comp["conv"], comp["expr"])) if comp else "",
+            inv.status, inv.signal, inv.out[-600:])
 
         def bytes_of(rel):
             return sb.read(rel) if sb.exists(rel) and os.path.isfile(sb.p(rel)) else None
@@ -484,6 +533,10 @@ def shrink_candidates(world):
             if f["kind"] == "efbig" and f.get("n") in ("all", "edges"):
                 for n_ in (0, 1, "mid", "last"):
                     yield dict(w, steps=w["steps"][:i] + [dict(st, fault={"kind": "efbig", "n": n_})] + w["steps"][i + 1:])
+        if st.get("companion"):
+            c2 = dict(st)
+            c2.pop("companion")
+            yield dict(w, steps=w["steps"][:i] + [c2] + w["steps"][i + 1:])
         if st["k"] in ("post_error", "pre_error"):
             yield dict(w, steps=w["steps"][:i] + [dict(st, k="out")] + w["steps"][i + 1:])
         if len(st["outs"]) == 2:
